@@ -16,6 +16,15 @@ pub fn generate(thorough: bool, seed: u64, em: &mut Emitter) {
         // holder builds takes nothing from them - in particular its iat is the current time even when the
         // credential itself is post-dated
         let mut claims = claims;
+        let mut marks = marks;
+        if i % 8 == 5 && claims.get("portrait").is_none() {
+            // a portrait of 3 to 12 KB: the text the key-binding JWT commits to is longer than any block of a streaming hasher
+            let len = 3_000 + r.below(9_000);
+            claims.as_object_mut().unwrap().insert("portrait".to_string(), json!(gen::long_text(r, len)));
+            if r.chance(2, 3) {
+                marks.insert(0, vec![gen::Tok::Key("portrait".to_string())]);
+            }
+        }
         if i % 3 == 1 {
             let now = std::time::SystemTime::now().duration_since(std::time::UNIX_EPOCH).unwrap().as_secs() as i64;
             let m = claims.as_object_mut().unwrap();
